@@ -7,7 +7,7 @@
    NOT_CONTROLLER; [requests log] are the requests sent, in order; [spaced false log] says that any two
    consecutive requests have a metadata refresh between them. *)
 From Coq Require Import List ZArith Permutation.
-From SV Require Import C19.Model C19.ProofsRetry C19.ProofsRoute.
+From SV Require Import Gen.DecTypes Gen.DecC19 C19.Model C19.ProofsRetry C19.ProofsRoute C19.ProofsTie.
 Import ListNotations.
 Open Scope Z_scope.
 
@@ -152,3 +152,16 @@ Theorem c19_any_error_list_offsets : forall e g parts l ev, group_op GListOffset
        forall p, In p parts -> In (p, assoc_def 0 p (g_codes e)) l).
 Proof. exact any_error_list_offsets. Qed.
 Print Assumptions c19_any_error_list_offsets.
+
+(* Tie to the regenerated code (go/decgen, golden SV.Gen.DecC19 re-derived from admin.go on every run): the
+   model's retryable test is isErrNoController, and what an operation returns is what the regenerated
+   retryOnError loop returns on the script of the closure's successive results. *)
+Theorem c19_tie_is_err_no_controller : forall e, retryable e = is_err_no_controller (to_gerr e).
+Proof. exact tie_retryable. Qed.
+Print Assumptions c19_tie_is_err_no_controller.
+
+Theorem c19_tie_retry_on_error : forall c s, c_flav c = fixed ->
+  snd (retry_on_error (results c (budget fixed (c_max c)) s) is_err_no_controller (c_max c)) =
+  og (snd (fst (run c s))).
+Proof. exact tie_retry_on_error. Qed.
+Print Assumptions c19_tie_retry_on_error.
